@@ -200,7 +200,7 @@ pub struct KnownFinding {
 }
 
 pub fn load_known_findings() -> Vec<KnownFinding> {
-    let path = Path::new("/verif").join("known_findings.jsonl");
+    let path = verif_root().join("known_findings.jsonl");
     let Ok(text) = std::fs::read_to_string(&path) else {
         return vec![];
     };
